@@ -542,10 +542,13 @@ def _flag(v):
 def _from_attributes(p):
     import numpoly
 
-    def run():
+    def run(*given):
         shape = tuple(p["shape"])
         dtype = p.get("dtype", "int64")
         coefs = [numpy.array([P.unnum(c) for c in row], dtype=dtype).reshape(shape) for row in p["coefs"]]
+        if given:
+            # the caller's own arrays (registers, so that the frame clause sees them): exponent table, then coefficients
+            coefs = list(given[1:])
         names = tuple("q%d" % n for n in p["names"])
         kw = {}
         if p["rc"] != "none":
@@ -553,7 +556,7 @@ def _from_attributes(p):
         if p["rn"] != "none":
             kw["retain_names"] = _flag(p["rn"])
         via = p.get("via", "function")
-        exps = [list(r) for r in p["rows"]]
+        exps = given[0] if given else [list(r) for r in p["rows"]]
         # the forms the `names` argument may take; "string" / "omitted" denote q0..q(n-1) and are used only for those
         form = p.get("names_form", "tuple")
         standard = list(p["names"]) == list(range(len(p["names"])))
